@@ -21,7 +21,7 @@ use bytes::Bytes;
 use cascette_cache::config::{DiskCacheConfig, MemoryCacheConfig, MultiLayerCacheConfig, PromotionStrategy};
 use cascette_cache::key::RibbitKey;
 use cascette_cache::traits::MultiLayerCache;
-use cascette_cache::validation::Md5ValidationHooks;
+use cascette_cache::validation::{Md5ValidationHooks, NgdpValidationHooks, NoOpValidationHooks, ValidationHooks, ValidationResult};
 use cascette_cache::{AsyncCache, EvictionPolicy, MultiLayerCacheImpl};
 use cascette_crypto::ContentKey;
 use serde::{Deserialize, Serialize};
@@ -59,6 +59,68 @@ struct Cfg {
     strategy: Strategy,
     /// disk layers run their cleanup task every 25 ms (exercised by `Settle`)
     short_cleanup: bool,
+    /// which validation hooks are installed
+    #[serde(default)]
+    hooks: Hooks,
+}
+
+/// Validation hooks installed in the cache under test.
+#[derive(Clone, Copy, Debug, Default, Serialize, Deserialize, PartialEq, Eq)]
+enum Hooks {
+    /// `Md5ValidationHooks`
+    #[default]
+    Md5,
+    /// `NgdpValidationHooks::new()` (delegates to the MD5 hooks)
+    Ngdp,
+    /// `NgdpValidationHooks::with_tact_key(..).with_jenkins96_validation()`
+    NgdpTactJenkins,
+    /// hooks of the harness: MD5 comparison, a mismatch is reported as `Err(CacheError)`; no metrics
+    StrictErr,
+    /// hooks of the harness: MD5 comparison, a mismatch is reported as `Ok(invalid)`; no metrics
+    SoftInvalid,
+    /// `NoOpValidationHooks` — documented as "performs no actual validation": nothing is demanded of validated calls
+    NoOp,
+    /// no hooks installed (`set_validation_hooks` never called): the statement's condition "when validation
+    /// hooks ... are supplied" does not hold, nothing is demanded of validated calls
+    Unset,
+}
+
+impl Hooks {
+    /// hooks that compare content with its key are installed
+    fn validating(self) -> bool {
+        !matches!(self, Hooks::NoOp | Hooks::Unset)
+    }
+    fn name(self) -> &'static str {
+        match self {
+            Hooks::Md5 => "Md5ValidationHooks",
+            Hooks::Ngdp => "NgdpValidationHooks",
+            Hooks::NgdpTactJenkins => "NgdpValidationHooks(tact-key,jenkins96)",
+            Hooks::StrictErr => "harness-hooks(mismatch=Err)",
+            Hooks::SoftInvalid => "harness-hooks(mismatch=Ok(invalid))",
+            Hooks::NoOp => "NoOpValidationHooks",
+            Hooks::Unset => "none",
+        }
+    }
+}
+
+/// Harness hooks: the MD5 comparison every validating implementation has to perform, with the two ways a
+/// `ValidationHooks` implementation can report a mismatch; `get_metrics` stays at the trait's default (`None`).
+struct HarnessHooks {
+    mismatch_is_err: bool,
+}
+
+#[async_trait::async_trait]
+impl ValidationHooks for HarnessHooks {
+    async fn validate_content(&self, content_key: &ContentKey, data: &[u8]) -> cascette_cache::CacheResult<ValidationResult> {
+        let ok = md5::compute(data).0 == *content_key.as_bytes();
+        if ok {
+            Ok(ValidationResult::valid(Duration::ZERO, Duration::ZERO, data.len()))
+        } else if self.mismatch_is_err {
+            Err(cascette_cache::CacheError::ContentValidationFailed("harness hooks: content does not hash to its key".to_string()))
+        } else {
+            Ok(ValidationResult::invalid(Duration::ZERO, Duration::ZERO, data.len()))
+        }
+    }
 }
 
 #[derive(Clone, Copy, Debug, Serialize, Deserialize, PartialEq, Eq)]
@@ -67,6 +129,29 @@ enum Damage {
     Truncate,
     Delete,
     Replace,
+    /// the file is replaced by a directory of the same name: the layer's next read of it FAILS (EISDIR)
+    /// instead of reporting a miss
+    MakeDirectory,
+}
+
+/// Pattern of a `search_content` call, made concrete from the value the layers are observed to hold.
+#[derive(Clone, Copy, Debug, Serialize, Deserialize, PartialEq, Eq)]
+enum Pat {
+    /// `len` bytes of the value starting at `off` (modulo its length)
+    FromValue { off: usize, len: usize },
+    /// the value's last byte, `len` times (values are long runs of one byte: many overlapping matches)
+    Fill { len: usize },
+    /// bytes that no generated value contains
+    Absent { len: usize },
+}
+
+/// Top-level read used by `BreakThenRead`.
+#[derive(Clone, Copy, Debug, Serialize, Deserialize, PartialEq, Eq)]
+enum ReadKind {
+    Get,
+    GetValidatedNoKey,
+    BatchGet,
+    Search,
 }
 
 #[derive(Clone, Debug, Serialize, Deserialize)]
@@ -81,9 +166,22 @@ enum Op {
     Clear,
     BatchGet { ks: Vec<usize> },
     BatchPut { items: Vec<(usize, usize, u64)> },
-    PutValidated { k: usize, len: usize, tag: u64, wrong_key: bool },
+    /// `ttl`: None = `put_with_validation`, Some(zero?) = `put_with_validation_and_ttl` (0 ns | 3600 s)
+    PutValidated {
+        k: usize,
+        len: usize,
+        tag: u64,
+        wrong_key: bool,
+        #[serde(default)]
+        ttl: Option<bool>,
+    },
     GetValidated { k: usize, with_key: bool },
     Damage { k: usize, layer: usize, how: Damage },
+    /// `search_content`: a read through the layers that reports where a pattern occurs in the served value
+    Search { k: usize, pat: Pat },
+    /// probe every layer, THEN turn the file of disk layer `layer` into a directory (its read now fails), then
+    /// read through the top-level API: the failing layer has to be skipped, a slower layer's entry is still found
+    BreakThenRead { k: usize, layer: usize, read: ReadKind },
     Contains { k: usize },
     Size,
     Stats,
@@ -103,7 +201,13 @@ impl Op {
             Op::Clear => "clear",
             Op::BatchGet { .. } => "batch_get",
             Op::BatchPut { .. } => "batch_put",
-            Op::PutValidated { .. } => "put_with_validation",
+            Op::PutValidated { ttl: None, .. } => "put_with_validation",
+            Op::PutValidated { .. } => "put_with_validation_and_ttl",
+            Op::Search { .. } => "search_content",
+            Op::BreakThenRead { read: ReadKind::Get, .. } => "get",
+            Op::BreakThenRead { read: ReadKind::GetValidatedNoKey, .. } => "get_with_validation(no key)",
+            Op::BreakThenRead { read: ReadKind::BatchGet, .. } => "batch_get",
+            Op::BreakThenRead { read: ReadKind::Search, .. } => "search_content",
             Op::GetValidated { .. } => "get_with_validation",
             Op::Damage { .. } => "damage(harness)",
             Op::Contains { .. } => "contains",
@@ -141,6 +245,29 @@ fn make_value(tag: u64, len: usize) -> Bytes {
 
 fn md5_of(b: &[u8]) -> [u8; 16] {
     md5::compute(b).0
+}
+
+/// Reference search: every offset at which `pattern` occurs in `hay` (overlapping occurrences included).
+fn naive_positions(hay: &[u8], pattern: &[u8]) -> Vec<usize> {
+    if pattern.is_empty() || pattern.len() > hay.len() {
+        return Vec::new();
+    }
+    (0..=hay.len() - pattern.len()).filter(|&i| &hay[i..i + pattern.len()] == pattern).collect()
+}
+
+/// Concrete pattern bytes for `pat`, given the value the read is expected to be served from (if any).
+fn pattern_bytes(pat: Pat, value: Option<&Bytes>) -> Vec<u8> {
+    match (pat, value) {
+        (Pat::FromValue { off, len }, Some(v)) if !v.is_empty() => {
+            let start = off % v.len();
+            v[start..(start + len.max(1)).min(v.len())].to_vec()
+        }
+        (Pat::Fill { len }, Some(v)) if !v.is_empty() => vec![v[v.len() - 1]; len.max(1)],
+        (Pat::FromValue { len, .. } | Pat::Fill { len } | Pat::Absent { len }, _) => {
+            // make_value produces runs of one byte after an 8-byte tag: an alternating pattern occurs in none of them
+            (0..len.max(2)).map(|i| if i % 2 == 0 { 0xa7 } else { 0x13 }).collect()
+        }
+    }
 }
 
 struct World {
@@ -188,7 +315,18 @@ fn build_world(cfg: &Cfg, root: &Path) -> Result<World, String> {
     let cache = {
         let _g = rt.enter();
         let mut c = MultiLayerCacheImpl::<RibbitKey>::new(mc).map_err(|e| e.to_string())?;
-        c.set_validation_hooks(Some(Arc::new(Md5ValidationHooks::new())));
+        let hooks: Option<Arc<dyn ValidationHooks>> = match cfg.hooks {
+            Hooks::Md5 => Some(Arc::new(Md5ValidationHooks::new())),
+            Hooks::Ngdp => Some(Arc::new(NgdpValidationHooks::new())),
+            Hooks::NgdpTactJenkins => Some(Arc::new(NgdpValidationHooks::with_tact_key(cascette_crypto::TactKey::new(0x1122_3344_5566_7788, [7u8; 16])).with_jenkins96_validation())),
+            Hooks::StrictErr => Some(Arc::new(HarnessHooks { mismatch_is_err: true })),
+            Hooks::SoftInvalid => Some(Arc::new(HarnessHooks { mismatch_is_err: false })),
+            Hooks::NoOp => Some(Arc::new(NoOpValidationHooks)),
+            Hooks::Unset => None,
+        };
+        if hooks.is_some() {
+            c.set_validation_hooks(hooks);
+        }
         c
     };
     Ok(World { rt, cache })
@@ -496,6 +634,66 @@ impl<'a> Runner<'a> {
         }
     }
 
+    /// `search_content(k, pattern)` judged against a reference search in the value of the first non-empty layer
+    /// observed right before it. With `behind_broken = Some(true)` an `Err` is handed back to the caller
+    /// (a failing faster layer was not skipped); otherwise `Err` is an observation as for every read.
+    fn search_and_judge(&mut self, k: usize, pre: &[Probe], pattern: Vec<u8>, class: &str, behind_broken: Option<bool>) -> Result<Option<String>, Stop> {
+        if pattern.is_empty() {
+            self.bump("search_content.skipped_empty_pattern", 1);
+            return Ok(None);
+        }
+        let (kk, pat2) = (key(k), pattern.clone());
+        let got = self.guarded("search_content", class, move |w| w.rt.block_on(w.cache.search_content(&kk, &pat2)).map_err(|e| e.to_string()))?;
+        let expect = Self::first_nonempty(pre);
+        let want: Option<Vec<usize>> = expect.as_ref().map(|(_, v)| naive_positions(v, &pattern));
+        let got_pos: Vec<usize> = match &got {
+            Ok(Some(p)) => p.clone(),
+            Ok(None) => Vec::new(),
+            Err(e) => {
+                if behind_broken == Some(true) {
+                    return Ok(Some(e.clone()));
+                }
+                self.bump(&format!("search_content.err:{}", e.chars().take(32).collect::<String>()), 1);
+                return Ok(None);
+            }
+        };
+        match (&expect, &want) {
+            (Some((l, v)), Some(w)) if *w == got_pos => {
+                self.bump(&format!("search_content.served_by_layer{l}"), 1);
+                self.bump(if w.is_empty() { "search_content.no_occurrence(agrees)" } else if w.len() > 1 { "search_content.several_occurrences(agree)" } else { "search_content.one_occurrence(agrees)" }, 1);
+                if matches!(&got, Ok(Some(p)) if p.is_empty()) {
+                    self.bump("search_content.empty_position_list_instead_of_none(observation)", 1);
+                }
+                if *l > 0 {
+                    self.served_lower = true;
+                }
+                self.touched[k] = true;
+                if *l > 0 {
+                    let v = v.clone();
+                    self.learn_promotion(k, *l, &v)?;
+                }
+            }
+            (Some((l, _)), Some(w)) => {
+                // explained by another layer's value? then it is the coherence of the read that failed, not the search
+                let from_slower = pre.iter().enumerate().skip(l + 1).any(|(_, p)| matches!(p, Ok(Some(b)) if !got_pos.is_empty() && naive_positions(b, &pattern) == got_pos));
+                let class = if from_slower { "slower-layer-answered-although-faster-layer-holds-key" } else { "positions-differ-from-search-in-first-non-empty-layer" };
+                self.violate(
+                    format!("C12|search_content|{class}"),
+                    "search_content did not report the occurrences of the pattern in the value of the first non-empty layer observed right before it",
+                    json!({"key": key(k).as_cache_key(), "pattern": hex_short(&pattern, 16), "got": got_pos.iter().take(12).collect::<Vec<_>>(), "got_count": got_pos.len(),
+                           "expected": w.iter().take(12).collect::<Vec<_>>(), "expected_count": w.len(), "first_non_empty_layer": l}),
+                );
+            }
+            _ if got_pos.is_empty() => self.bump("search_content.miss_all_layers", 1),
+            _ => self.violate(
+                "C12|search_content|positions-although-every-layer-was-empty".into(),
+                "search_content reported occurrences although every layer was observed empty right before it",
+                json!({"key": key(k).as_cache_key(), "pattern": hex_short(&pattern, 16), "got_count": got_pos.len()}),
+            ),
+        }
+        Ok(None)
+    }
+
     fn hang_class(&self, k: usize, pre: &[Probe]) -> String {
         let base = match Self::first_nonempty(pre) {
             Some((0, _)) => "hit-in-first-layer",
@@ -693,29 +891,41 @@ impl<'a> Runner<'a> {
                     self.bump("batch_put.err", 1);
                 }
             }
-            Op::PutValidated { k, len, tag, wrong_key } => {
-                let (k, val) = (*k, make_value(*tag, *len));
+            Op::PutValidated { k, len, tag, wrong_key, ttl } => {
+                let (k, val, ttl) = (*k, make_value(*tag, *len), *ttl);
                 let ck_bytes = if *wrong_key { md5_of(&make_value(tag ^ 0xdead_beef, len + 1)) } else { md5_of(&val) };
                 let matches_key = ck_bytes == md5_of(&val);
+                let validating = self.h.cfg.hooks.validating();
+                let dead = ttl == Some(true);
                 let (kk, v2) = (key(k), val.clone());
-                let r = self.guarded(api, "-", move |w| w.rt.block_on(w.cache.put_with_validation(kk, ContentKey::from_bytes(ck_bytes), v2)).map(|res| res.is_valid).map_err(|e| e.to_string()))?;
-                if !matches_key {
+                let r = self.guarded(api, "-", move |w| {
+                    let ck = ContentKey::from_bytes(ck_bytes);
+                    match ttl {
+                        None => w.rt.block_on(w.cache.put_with_validation(kk, ck, v2)),
+                        Some(zero) => w.rt.block_on(w.cache.put_with_validation_and_ttl(kk, ck, v2, if zero { Duration::ZERO } else { Duration::from_secs(3600) })),
+                    }
+                    .map(|res| res.is_valid)
+                    .map_err(|e| e.to_string())
+                })?;
+                if !matches_key && validating {
                     self.validation_failure_injected = true;
                     self.bump("validation.put_with_wrong_key_injected", 1);
                 }
                 match r {
                     Ok(_) => {
-                        if !matches_key {
-                            self.violate("C12|put_with_validation|accepted-content-not-hashing-to-key".into(), "put_with_validation stored content whose MD5 differs from the supplied content key", json!({"key": key(k).as_cache_key(), "len": val.len()}));
+                        if !matches_key && validating {
+                            self.violate(format!("C12|{api}|accepted-content-not-hashing-to-key"), "a validated put stored content whose MD5 differs from the supplied content key", json!({"key": key(k).as_cache_key(), "len": val.len(), "hooks": self.h.cfg.hooks.name()}));
+                        } else if !matches_key {
+                            self.bump("validation.no_validating_hooks.put_with_wrong_key_accepted(observation)", 1);
                         }
                         self.latest[k] = Some(md5_of(&val));
-                        self.model[0][k].set(val, false);
+                        self.model[0][k].set(val, dead);
                         self.touched[k] = true;
                     }
                     Err(_) => {
-                        self.bump(if matches_key { "put_with_validation.err_on_matching_content(observation)" } else { "put_with_validation.refused_mismatch" }, 1);
+                        self.bump(&if matches_key { format!("{api}.err_on_matching_content(observation)") } else { format!("{api}.refused_mismatch") }, 1);
                         // a refused put may or may not have left the value behind: the statement is silent
-                        self.model[0][k].maybe(val, false);
+                        self.model[0][k].maybe(val, dead);
                     }
                 }
             }
@@ -725,15 +935,47 @@ impl<'a> Runner<'a> {
                 let pre = self.probe_all(k)?;
                 let first = Self::first_nonempty(&pre);
                 let kk = key(k);
-                let got = self.guarded(api, "-", move |w| {
-                    w.rt.block_on(w.cache.get_with_validation(&kk, ck.map(ContentKey::from_bytes))).map(|o| o.map(|nb| nb.as_bytes().clone())).map_err(|e| e.to_string())
+                // besides the bytes: what the returned object says about itself (its own lazy MD5 check)
+                let got_full = self.guarded(api, "-", move |w| {
+                    w.rt.block_on(w.cache.get_with_validation(&kk, ck.map(ContentKey::from_bytes)))
+                        .map(|o| o.map(|nb| (nb.as_bytes().clone(), nb.validate_if_needed().map_err(|e| e.to_string()), *nb == *nb.as_bytes() && nb.as_ref() == nb.as_bytes().as_ref())))
+                        .map_err(|e| e.to_string())
                 })?;
+                let self_report = match &got_full {
+                    Ok(Some((_, sr, same))) => Some((sr.clone(), *same)),
+                    _ => None,
+                };
+                let got: Result<Option<Bytes>, String> = got_full.map(|o| o.map(|(b, _, _)| b));
                 let Some(ck) = ck else {
                     if self.judge_read("get_with_validation(no key)", k, &pre, &got).is_some() {
                         self.touched[k] = true;
                     }
                     return Ok(());
                 };
+                if !self.h.cfg.hooks.validating() {
+                    // no hooks / hooks that declare to validate nothing: the statement's condition does not hold,
+                    // the call is a plain read
+                    if let Ok(Some(v)) = &got {
+                        if md5_of(v) != ck {
+                            self.bump("validation.no_validating_hooks.read_returned_bytes_not_hashing_to_key(observation)", 1);
+                        }
+                    }
+                    if self.judge_read("get_with_validation(no validating hooks)", k, &pre, &got).is_some() {
+                        self.touched[k] = true;
+                    }
+                    return Ok(());
+                }
+                if let (Ok(Some(v)), Some((sr, same))) = (&got, &self_report) {
+                    // the returned object must agree with an independent MD5 about itself, and hand out the same bytes
+                    // through every accessor
+                    if md5_of(v) == ck && *sr != Ok(true) {
+                        self.violate("C12|get_with_validation|returned-object-reports-itself-invalid".into(), "a validated read returned bytes hashing to the key inside an object whose own validation says otherwise", json!({"key": key(k).as_cache_key(), "self_validation": format!("{sr:?}")}));
+                    }
+                    if !*same {
+                        self.violate("C12|get_with_validation|returned-object-accessors-disagree".into(), "deref / as_ref / as_bytes of the returned object hand out different bytes", json!({"key": key(k).as_cache_key()}));
+                    }
+                    self.bump("validation.returned_object_self_check_judged", 1);
+                }
                 let first_is_valid = first.as_ref().map(|(_, e)| md5_of(e) == ck);
                 if first_is_valid == Some(false) {
                     self.validation_failure_injected = true;
@@ -783,6 +1025,14 @@ impl<'a> Runner<'a> {
                     self.bump("damage.skipped_no_file_for_key", 1);
                     return Ok(());
                 };
+                if *how == Damage::MakeDirectory {
+                    if std::fs::remove_file(&path).is_ok() && std::fs::create_dir(&path).is_ok() {
+                        // the layer can serve nothing for the key any more (its read fails)
+                        self.model[layer][k].retire("file-replaced-by-directory-by-harness");
+                        self.bump("damage.file_MakeDirectory", 1);
+                    }
+                    return Ok(());
+                }
                 let old = std::fs::read(&path).unwrap_or_default();
                 let new: Option<Vec<u8>> = match how {
                     Damage::Delete => None,
@@ -811,16 +1061,100 @@ impl<'a> Runner<'a> {
                     }
                 }
             }
+            Op::Search { k, pat } => {
+                let k = *k;
+                let pre = self.probe_all(k)?;
+                let class = self.hang_class(k, &pre);
+                let pattern = pattern_bytes(*pat, Self::first_nonempty(&pre).as_ref().map(|(_, v)| v));
+                self.search_and_judge(k, &pre, pattern, &class, None)?;
+            }
+            Op::BreakThenRead { k, layer, read } => {
+                let (k, layer, read) = (*k, *layer, *read);
+                let mut pre = self.probe_all(k)?;
+                // break the layer AFTER it was probed: the top-level read is the first to meet the failure
+                let mut broke = false;
+                if matches!(self.h.cfg.layers.get(layer), Some(LayerKind::Disk { .. })) {
+                    if let Some(path) = find_file(&layer_dir(&self.root, layer), key(k).as_cache_key()) {
+                        if std::fs::remove_file(&path).is_ok() && std::fs::create_dir(&path).is_ok() {
+                            broke = true;
+                            self.model[layer][k].retire("file-replaced-by-directory-by-harness");
+                            pre[layer] = Ok(None);
+                            self.bump("break.file_replaced_by_directory", 1);
+                        }
+                    }
+                }
+                if !broke {
+                    self.bump("break.skipped_no_file_in_that_layer", 1);
+                }
+                let holder = Self::first_nonempty(&pre).map(|(l, _)| l);
+                let behind_broken = broke && holder.is_some_and(|l| l > layer) && pre.iter().take(layer).all(|p| !matches!(p, Ok(Some(_))));
+                if behind_broken {
+                    self.bump(&format!("break.entry_only_behind_the_failing_layer.{api}"), 1);
+                }
+                let class = self.hang_class(k, &pre);
+                let not_skipped = |this: &mut Self, e: &str| {
+                    this.violate(
+                        format!("C12|{api}|entry-present-in-a-layer-not-found|only-in-slower-layer|error-of-faster-layer-not-skipped"),
+                        "a read failed with the error of a faster layer although a slower layer was observed holding the key",
+                        json!({"key": key(k).as_cache_key(), "failing_layer": layer, "holding_layer": holder, "error": e}),
+                    );
+                };
+                match read {
+                    ReadKind::Get | ReadKind::GetValidatedNoKey | ReadKind::BatchGet => {
+                        let kk = key(k);
+                        let got: Result<Option<Bytes>, String> = match read {
+                            ReadKind::Get => self.guarded(api, &class, move |w| w.rt.block_on(w.cache.get(&kk)).map_err(|e| e.to_string()))?,
+                            ReadKind::GetValidatedNoKey => self.guarded(api, &class, move |w| w.rt.block_on(w.cache.get_with_validation(&kk, None)).map(|o| o.map(|nb| nb.into_bytes())).map_err(|e| e.to_string()))?,
+                            _ => self.guarded(api, &class, move |w| {
+                                w.rt.block_on(w.cache.batch_get(std::slice::from_ref(&kk))).map_err(|e| e.to_string()).and_then(|mut v| if v.len() == 1 { Ok(v.remove(0)) } else { Err(format!("batch_get of one key returned {} results", v.len())) })
+                            })?,
+                        };
+                        match &got {
+                            Err(e) if behind_broken => not_skipped(self, e),
+                            _ => {
+                                if let Some(l) = self.judge_read(api, k, &pre, &got) {
+                                    self.touched[k] = true;
+                                    if l > 0 {
+                                        if let Ok(Some(v)) = &got {
+                                            self.learn_promotion(k, l, v)?;
+                                        }
+                                    }
+                                }
+                            }
+                        }
+                    }
+                    ReadKind::Search => {
+                        let pattern = pattern_bytes(Pat::FromValue { off: 0, len: 5 }, Self::first_nonempty(&pre).as_ref().map(|(_, v)| v));
+                        if let Some(e) = self.search_and_judge(k, &pre, pattern, &class, Some(behind_broken))? {
+                            not_skipped(self, &e);
+                        }
+                    }
+                }
+            }
             Op::Contains { k } => {
                 let kk = key(*k);
                 let _ = self.guarded(api, "-", move |w| w.rt.block_on(w.cache.contains(&kk)).map_err(|e| e.to_string()))?;
             }
             Op::Size => {
                 let _ = self.guarded(api, "-", move |w| w.rt.block_on(w.cache.size()).map_err(|e| e.to_string()))?;
+                let _ = self.guarded("is_empty", "-", move |w| w.rt.block_on(w.cache.is_empty()).map_err(|e| e.to_string()))?;
             }
             Op::Stats => {
                 let _ = self.guarded(api, "-", move |w| w.rt.block_on(w.cache.stats()).map(|s| s.entry_count).map_err(|e| e.to_string()))?;
-                let _ = self.guarded("multi_layer_stats", "-", move |w| w.rt.block_on(w.cache.multi_layer_stats()).map(|s| s.tracked_entries).map_err(|e| e.to_string()))?;
+                let _ = self.guarded("multi_layer_stats", "-", move |w| w.rt.block_on(w.cache.multi_layer_stats()).map(|s| (s.tracked_entries, s.total_entries(), s.total_memory_usage(), s.effective_hit_rate(), s.promotion_rate(), s.validation_stats.is_some())).map_err(|e| e.to_string()))?;
+                // the layer structure the cache reports is the configured one
+                let n = self.n_layers;
+                let (count, hooks_on, last_ok, beyond_ok) = self.guarded("layer_count/layer_stats", "-", move |w| {
+                    (w.cache.layer_count(), w.cache.has_validation_hooks(), w.rt.block_on(w.cache.layer_stats(n - 1)).is_ok(), w.rt.block_on(w.cache.layer_stats(n)).is_ok())
+                })?;
+                if count != n {
+                    self.violate("C12|layer_count|differs-from-configured-layers".into(), "layer_count() differs from the number of configured layers", json!({"layer_count": count, "configured": n}));
+                }
+                if hooks_on != (self.h.cfg.hooks != Hooks::Unset) {
+                    self.violate("C12|has_validation_hooks|differs-from-what-was-installed".into(), "has_validation_hooks() disagrees with whether hooks were installed", json!({"has_validation_hooks": hooks_on, "installed": self.h.cfg.hooks.name()}));
+                }
+                self.bump(if last_ok { "layer_stats.last_layer_ok" } else { "layer_stats.last_layer_err(observation)" }, 1);
+                self.bump(if beyond_ok { "layer_stats.invalid_layer_answered(observation)" } else { "layer_stats.invalid_layer_refused" }, 1);
             }
             Op::Settle { ms } => {
                 let ms = *ms;
@@ -945,6 +1279,10 @@ fn run_history(ctx: &Ctx, shared: &Shared, h: &History) {
     ctx.obs(&format!("histories.layers={}", h.cfg.layers.iter().map(|l| match l { LayerKind::Memory { .. } => "M", LayerKind::Disk { .. } => "D" }).collect::<String>()), 1);
     ctx.obs(&format!("histories.strategy={}", match &h.cfg.strategy { Strategy::OnHit => "OnHit", Strategy::AfterNHits(_) => "AfterNHits", Strategy::Frequency { .. } => "FrequencyBased", Strategy::Age { .. } => "AgeBased", Strategy::Manual => "Manual" }), 1);
     ctx.obs("operations.total", h.ops.len() as u64);
+    ctx.obs(&format!("histories.hooks={}", h.cfg.hooks.name()), 1);
+    if matches!(h.cfg.layers.first(), Some(LayerKind::Disk { .. })) {
+        ctx.obs("histories.first_layer_on_disk", 1);
+    }
     for f in res.found {
         ctx.violation(&f.signature, &f.summary, f.detail);
     }
@@ -993,6 +1331,10 @@ fn run_history(ctx: &Ctx, shared: &Shared, h: &History) {
 fn gen_history(rng: &mut Rng, idx: usize) -> History {
     let n_layers = if idx % 3 == 2 { 3 } else { 2 };
     let mut layers = vec![LayerKind::Memory { max_entries: rng.urange(1, 3), policy: (*rng.pick(&["Lru", "Lru", "Lfu", "Fifo", "Random"])).to_string() }];
+    if idx % 11 == 5 {
+        // a disk cache as the FIRST layer (put / put_with_ttl / validated puts land on disk; nothing is evicted there)
+        layers[0] = LayerKind::Disk { subdir_levels: idx % 3 };
+    }
     for i in 1..n_layers {
         // make sure most histories have a disk layer (faults need one), some are memory only
         let disk = match (idx / 3) % 4 {
@@ -1015,6 +1357,15 @@ fn gen_history(rng: &mut Rng, idx: usize) -> History {
         4 => Strategy::Age { min_age_ms: 0 },
         5 => Strategy::Age { min_age_ms: 3_600_000 },
         _ => Strategy::Manual,
+    };
+    let hooks = match (idx / 7) % 8 {
+        0 | 1 => Hooks::Md5,
+        2 => Hooks::Ngdp,
+        3 => Hooks::NgdpTactJenkins,
+        4 => Hooks::StrictErr,
+        5 => Hooks::SoftInvalid,
+        6 => Hooks::NoOp,
+        _ => Hooks::Unset,
     };
     let short_cleanup = rng.chance(1, 10);
     let universe = rng.urange(4, 10);
@@ -1047,6 +1398,26 @@ fn gen_history(rng: &mut Rng, idx: usize) -> History {
                 placed.push((layer, k));
             }
             Op::PutToLayer { k, len, tag, layer }
+        } else if r < 335 {
+            Op::Search {
+                k,
+                pat: match rng.below(5) {
+                    0 | 1 => Pat::FromValue { off: rng.usize_below(64), len: rng.urange(1, 9) },
+                    2 | 3 => Pat::Fill { len: rng.urange(1, 9) },
+                    _ => Pat::Absent { len: rng.urange(2, 6) },
+                },
+            }
+        } else if r < 355 && !disk_layers.is_empty() {
+            // the key ends up only in a disk layer and (if there is one) in a slower layer behind it; then the
+            // disk layer's file is broken between the probes and the read
+            let d = *rng.pick(&disk_layers);
+            ops.push(Op::Remove { k });
+            ops.push(Op::PutToLayer { k, len: len.max(6), tag, layer: d });
+            if d + 1 < n_layers {
+                tag += 1;
+                ops.push(Op::PutToLayer { k, len: len.max(6) + 1, tag, layer: rng.urange(d + 1, n_layers - 1) });
+            }
+            Op::BreakThenRead { k, layer: d, read: *rng.pick(&[ReadKind::Get, ReadKind::Get, ReadKind::GetValidatedNoKey, ReadKind::BatchGet, ReadKind::Search]) }
         } else if r < 520 {
             Op::Get { k }
         } else if r < 570 {
@@ -1071,13 +1442,13 @@ fn gen_history(rng: &mut Rng, idx: usize) -> History {
             let n = rng.urange(0, 5);
             Op::BatchPut { items: (0..n).map(|j| (rng.usize_below(universe), rng.urange(0, 300), tag * 16 + j as u64)).collect() }
         } else if r < 830 {
-            Op::PutValidated { k, len, tag, wrong_key: rng.chance(1, 4) }
+            Op::PutValidated { k, len, tag, wrong_key: rng.chance(1, 4), ttl: if rng.chance(1, 3) { Some(rng.bool()) } else { None } }
         } else if r < 910 {
             Op::GetValidated { k, with_key: rng.chance(5, 6) }
         } else if r < 965 && !disk_layers.is_empty() {
             let on_disk: Vec<(usize, usize)> = placed.iter().copied().filter(|(l, _)| disk_layers.contains(l)).collect();
             let (layer, dk) = if !on_disk.is_empty() && rng.chance(5, 6) { *rng.pick(&on_disk) } else { (*rng.pick(&disk_layers), k) };
-            Op::Damage { k: dk, layer, how: *rng.pick(&[Damage::FlipByte, Damage::Truncate, Damage::Delete, Damage::Replace]) }
+            Op::Damage { k: dk, layer, how: *rng.pick(&[Damage::FlipByte, Damage::FlipByte, Damage::Truncate, Damage::Truncate, Damage::Delete, Damage::Delete, Damage::Replace, Damage::Replace, Damage::MakeDirectory]) }
         } else if r < 975 {
             Op::Contains { k }
         } else if r < 983 {
@@ -1090,7 +1461,7 @@ fn gen_history(rng: &mut Rng, idx: usize) -> History {
         };
         ops.push(op);
     }
-    History { label: format!("random#{idx}"), cfg: Cfg { layers, strategy, short_cleanup }, universe, ops }
+    History { label: format!("random#{idx}"), cfg: Cfg { layers, strategy, short_cleanup, hooks }, universe, ops }
 }
 
 /// Hand-written histories for the behaviours the property text names explicitly.
@@ -1102,7 +1473,7 @@ fn directed() -> Vec<History> {
     for (name, l2) in [("memory", mem(16)), ("disk", disk(0))] {
         v.push(History {
             label: format!("directed:second-hit-in-lower-{name}-layer"),
-            cfg: Cfg { layers: vec![mem(2), l2], strategy: Strategy::OnHit, short_cleanup: false },
+            cfg: Cfg { layers: vec![mem(2), l2], strategy: Strategy::OnHit, short_cleanup: false, hooks: Hooks::Md5 },
             universe: 2,
             ops: vec![Op::PutToLayer { k: 0, len: 32, tag: 1, layer: 1 }, Op::Get { k: 0 }, Op::Get { k: 0 }, Op::Get { k: 0 }],
         });
@@ -1110,7 +1481,7 @@ fn directed() -> Vec<History> {
     // 2. put (tracked), L1 evicts it, an older copy sits in L2
     v.push(History {
         label: "directed:older-copy-surfaces-after-eviction".into(),
-        cfg: Cfg { layers: vec![mem(1), disk(1)], strategy: Strategy::AfterNHits(2), short_cleanup: false },
+        cfg: Cfg { layers: vec![mem(1), disk(1)], strategy: Strategy::AfterNHits(2), short_cleanup: false, hooks: Hooks::Md5 },
         universe: 3,
         ops: vec![
             Op::PutToLayer { k: 0, len: 40, tag: 10, layer: 1 },
@@ -1125,7 +1496,7 @@ fn directed() -> Vec<History> {
     // 3. corrupted disk file found by a validated read must be gone from every layer
     v.push(History {
         label: "directed:corrupted-disk-entry-dropped-everywhere".into(),
-        cfg: Cfg { layers: vec![mem(2), mem(8), disk(0)], strategy: Strategy::Manual, short_cleanup: false },
+        cfg: Cfg { layers: vec![mem(2), mem(8), disk(0)], strategy: Strategy::Manual, short_cleanup: false, hooks: Hooks::Md5 },
         universe: 2,
         ops: vec![
             Op::PutToLayer { k: 0, len: 100, tag: 20, layer: 2 },
@@ -1142,7 +1513,7 @@ fn directed() -> Vec<History> {
     // 4. remove / clear reach every layer
     v.push(History {
         label: "directed:remove-and-clear-reach-every-layer".into(),
-        cfg: Cfg { layers: vec![mem(3), mem(8), disk(2)], strategy: Strategy::Age { min_age_ms: 0 }, short_cleanup: false },
+        cfg: Cfg { layers: vec![mem(3), mem(8), disk(2)], strategy: Strategy::Age { min_age_ms: 0 }, short_cleanup: false, hooks: Hooks::Md5 },
         universe: 3,
         ops: vec![
             Op::Put { k: 0, len: 10, tag: 30 },
@@ -1154,6 +1525,105 @@ fn directed() -> Vec<History> {
             Op::PutToLayer { k: 2, len: 14, tag: 34, layer: 1 },
             Op::Clear,
             Op::BatchGet { ks: vec![0, 1, 2] },
+        ],
+    });
+    // 5. a faster layer whose read FAILS has to be skipped: the entry behind it is still found (every read entry point)
+    for (lname, layers) in [("MDM", vec![mem(2), disk(0), mem(8)]), ("MDD", vec![mem(2), disk(1), disk(0)]), ("DM", vec![disk(0), mem(8)])] {
+        for read in [ReadKind::Get, ReadKind::GetValidatedNoKey, ReadKind::BatchGet, ReadKind::Search] {
+            let broken = layers.len() - 2;
+            v.push(History {
+                label: format!("directed:failing-faster-layer-is-skipped/{lname}/{read:?}"),
+                cfg: Cfg { layers: layers.clone(), strategy: Strategy::Manual, short_cleanup: false, hooks: Hooks::Md5 },
+                universe: 2,
+                ops: vec![
+                    Op::PutToLayer { k: 0, len: 48, tag: 40, layer: broken },
+                    Op::PutToLayer { k: 0, len: 49, tag: 41, layer: broken + 1 },
+                    Op::BreakThenRead { k: 0, layer: broken, read },
+                    Op::Get { k: 0 },
+                    Op::PutToLayer { k: 0, len: 50, tag: 42, layer: broken },
+                    Op::Get { k: 0 },
+                    Op::Remove { k: 0 },
+                ],
+            });
+        }
+    }
+    // 6. validated puts with a TTL: refused on a wrong key, stored with that TTL otherwise
+    v.push(History {
+        label: "directed:validated-put-with-ttl".into(),
+        cfg: Cfg { layers: vec![mem(3), disk(0)], strategy: Strategy::OnHit, short_cleanup: false, hooks: Hooks::Md5 },
+        universe: 3,
+        ops: vec![
+            Op::PutValidated { k: 0, len: 70, tag: 50, wrong_key: false, ttl: Some(false) },
+            Op::Get { k: 0 },
+            Op::PutValidated { k: 1, len: 71, tag: 51, wrong_key: false, ttl: Some(true) },
+            Op::Get { k: 1 },
+            Op::PutValidated { k: 2, len: 72, tag: 52, wrong_key: true, ttl: Some(false) },
+            Op::Get { k: 2 },
+            Op::PutValidated { k: 0, len: 73, tag: 53, wrong_key: true, ttl: Some(true) },
+            Op::GetValidated { k: 0, with_key: true },
+        ],
+    });
+    // 7. search_content is a read through the layers
+    v.push(History {
+        label: "directed:search-content-reads-through-the-layers".into(),
+        cfg: Cfg { layers: vec![mem(1), mem(8), disk(0)], strategy: Strategy::OnHit, short_cleanup: false, hooks: Hooks::Md5 },
+        universe: 3,
+        ops: vec![
+            Op::Put { k: 0, len: 300, tag: 60 },
+            Op::Search { k: 0, pat: Pat::FromValue { off: 0, len: 8 } },
+            Op::Search { k: 0, pat: Pat::Fill { len: 5 } },
+            Op::Search { k: 0, pat: Pat::Fill { len: 1 } },
+            Op::Search { k: 0, pat: Pat::Absent { len: 4 } },
+            Op::PutToLayer { k: 1, len: 64, tag: 61, layer: 2 },
+            Op::Search { k: 1, pat: Pat::FromValue { off: 3, len: 6 } },
+            Op::Search { k: 1, pat: Pat::Fill { len: 4 } },
+            Op::Search { k: 1, pat: Pat::Fill { len: 4 } },
+            Op::PutToLayer { k: 1, len: 33, tag: 62, layer: 1 },
+            Op::Search { k: 1, pat: Pat::Fill { len: 7 } },
+            Op::Remove { k: 1 },
+            Op::Search { k: 1, pat: Pat::Fill { len: 2 } },
+            Op::Search { k: 2, pat: Pat::Absent { len: 3 } },
+        ],
+    });
+    // 8. every kind of validation hooks: wrong-key put, corrupted entry in a lower layer met by a validated read
+    for hooks in [Hooks::Md5, Hooks::Ngdp, Hooks::NgdpTactJenkins, Hooks::StrictErr, Hooks::SoftInvalid, Hooks::NoOp, Hooks::Unset] {
+        v.push(History {
+            label: format!("directed:hooks/{}", hooks.name()),
+            cfg: Cfg { layers: vec![mem(2), mem(8), disk(0)], strategy: Strategy::Manual, short_cleanup: false, hooks },
+            universe: 2,
+            ops: vec![
+                Op::PutValidated { k: 0, len: 90, tag: 70, wrong_key: true, ttl: None },
+                Op::PutValidated { k: 0, len: 91, tag: 71, wrong_key: false, ttl: None },
+                Op::GetValidated { k: 0, with_key: true },
+                Op::PutToLayer { k: 1, len: 100, tag: 72, layer: 2 },
+                Op::Damage { k: 1, layer: 2, how: Damage::FlipByte },
+                Op::Promote { k: 1, from: 2, to: 1 },
+                Op::GetValidated { k: 1, with_key: true },
+                Op::Get { k: 1 },
+                Op::Stats,
+                Op::Size,
+            ],
+        });
+    }
+    // 9. a disk cache as the first layer
+    v.push(History {
+        label: "directed:first-layer-on-disk".into(),
+        cfg: Cfg { layers: vec![disk(1), mem(4)], strategy: Strategy::AfterNHits(1), short_cleanup: false, hooks: Hooks::Md5 },
+        universe: 3,
+        ops: vec![
+            Op::Put { k: 0, len: 20, tag: 80 },
+            Op::PutTtl { k: 1, len: 21, tag: 81, zero: true },
+            Op::PutTtl { k: 2, len: 22, tag: 82, zero: false },
+            Op::Get { k: 0 },
+            Op::Get { k: 1 },
+            Op::PutToLayer { k: 1, len: 23, tag: 83, layer: 1 },
+            Op::Get { k: 1 },
+            Op::Get { k: 1 },
+            Op::Damage { k: 2, layer: 0, how: Damage::Truncate },
+            Op::GetValidated { k: 2, with_key: true },
+            Op::Get { k: 2 },
+            Op::Remove { k: 0 },
+            Op::Clear,
         ],
     });
     v
@@ -1257,6 +1727,30 @@ fn main() {
         for (n, why) in [(served_lower, "no get was served by a layer > 0"), (evictions, "no eviction was observed in the first layer"), (injected, "no validation failure was injected"), (damaged, "no disk-layer file was damaged")] {
             if n == 0 {
                 ctx.inconclusive(why);
+            }
+        }
+    }
+    if skipped == 0 {
+        // the sub-workloads added for the APIs and branches the first version never reached must have run
+        let mut need: Vec<(String, &str)> = vec![
+            ("op.search_content".into(), "search_content was never called"),
+            ("search_content.several_occurrences(agree)".into(), "no search_content call with several occurrences was judged"),
+            ("op.put_with_validation_and_ttl".into(), "put_with_validation_and_ttl was never called"),
+            ("put_with_validation_and_ttl.refused_mismatch".into(), "put_with_validation_and_ttl never met a wrong content key"),
+            ("histories.first_layer_on_disk".into(), "no history had a disk cache as its first layer"),
+            ("damage.file_MakeDirectory".into(), "no disk-layer file was replaced by a directory"),
+            ("validation.returned_object_self_check_judged".into(), "the object returned by a validated read was never cross-checked"),
+            ("layer_stats.invalid_layer_refused".into(), "layer_count / layer_stats were never called"),
+        ];
+        for api in ["get", "get_with_validation(no key)", "batch_get", "search_content"] {
+            need.push((format!("break.entry_only_behind_the_failing_layer.{api}"), "a read entry point never met a failing faster layer with the entry behind it"));
+        }
+        for hooks in [Hooks::Md5, Hooks::Ngdp, Hooks::NgdpTactJenkins, Hooks::StrictErr, Hooks::SoftInvalid, Hooks::NoOp, Hooks::Unset] {
+            need.push((format!("histories.hooks={}", hooks.name()), "a kind of validation hooks was never installed"));
+        }
+        for (k, why) in need {
+            if ctx.get_obs(&k) == 0 {
+                ctx.inconclusive(&format!("{why} ({k})"));
             }
         }
     }
